@@ -3554,6 +3554,14 @@ class TLSConnection(TLSRecordLayer):
                     "Malformed signature_algorithms extension"):
                 yield result
 
+        # the list of certificate types is defined as <1..2^8-1>
+        ext = clientHello.getExtension(ExtensionType.cert_type)
+        if ext and not ext.certTypes:
+            for result in self._sendError(
+                    AlertDescription.decode_error,
+                    "Malformed cert_type extension"):
+                yield result
+
         # Sanity check the ALPN extension
         alpnExt = clientHello.getExtension(ExtensionType.alpn)
         if alpnExt:
